@@ -9,7 +9,8 @@ import Gp.Lemmas.Layers.TunRt
             bytes than it announces; with > 252 bytes it cannot be written back);
     ltun-6  GTPv1-U: E flag with next-extension-type 0 is what SerializeTo writes for a layer with the
             flag and no headers, and the decoder rejected / misread it.
-  (ltun-2, the uint8 offset that wraps at 256, needs a 260-byte witness: corpus replay only.)
+    ltun-2  the uint8 running offset wraps at 256: a VALID header with the maximal 252 bytes of options
+            is split into a 4-byte Contents and a 258-byte Payload;
 
   NOT repaired, modelled as it is (known finding `ltun:roundtrip:GTPv1U:ProtocolType|Reserved`):
   GTPv1U.SerializeTo hard-codes protocol type 1 and never writes the reserved bit.  Hence
@@ -202,6 +203,23 @@ theorem decoded_canonical_geneve_orig_counterexample :
      contents := [1, 0, 0x65, 0x58, 0, 0, 1, 0, 0, 1, 2, 1, 9, 9, 9, 9], payload := [0xaa],
      optionsLength := 4, protocol := 0x6558, vni := 1, options := [⟨1, 2, 0, 8, [9, 9, 9, 9]⟩] },
    by decide, by decide⟩
+
+/-- a valid Geneve packet with the largest options area the format admits: 63 four-byte options. -/
+def maxOptsPacket : Bytes :=
+  [63, 0, 8, 0, 0, 0, 9, 0] ++ (List.replicate 63 [0, 1, 2, 0]).flatten ++ [0xaa, 0xbb]
+
+set_option maxRecDepth 100000 in
+/-- ltun-2, ORIGINAL uint8 offset: after 62 options the offset is 256 ≡ 0, the loop parses the start
+    of the packet as the 63rd option and the layer is split at offset 4 — (|Contents|, |Payload|,
+    #options) = (4, 258, 63); the patched decoder gives (260, 2, 63). -/
+theorem roundtrip_geneve_orig_counterexample_offset_wrap :
+    (match Geneve.decodeV ⟨true, false, false⟩ Geneve.Layer.fresh maxOptsPacket [] with
+      | .ok (l, _) => (l.contents.length, l.payload.length, l.options.length)
+      | _ => (0, 0, 0)) = (4, 258, 63) ∧
+    (match Geneve.decode Geneve.Layer.fresh maxOptsPacket [] with
+      | .ok (l, _) => (l.contents.length, l.payload.length, l.options.length)
+      | _ => (0, 0, 0)) = (260, 2, 63) := by
+  decide
 
 /-- …and the patched decoder rejects that packet (no truncation flag: nothing is missing). -/
 example : Geneve.decode Geneve.Layer.fresh [1, 0, 0x65, 0x58, 0, 0, 1, 0, 0, 1, 2, 1, 9, 9, 9, 9, 0xaa] [] =
